@@ -2,71 +2,433 @@ package main
 
 import (
 	"go/ast"
+	"go/token"
+	"strconv"
 	"strings"
 )
 
-// C07: decision expressions the property hinges on, as source text (regenerated on every run):
-//   - SortablePeerSlice.Less: the comparison it returns and what the two hashes are taken of
-//   - the sender guards of waitForStart (initiate, start) and watchExecution (fail)
-//   - the admission test of a ready message in initiate
-//   - the Ready test of both Signing types
+// C07: decision expressions the property hinges on, located by SHAPE (never by the names of locals, receivers or
+// parameters, never by comparing source text) and translated into Lean terms; a fact that cannot be located or has a
+// shape the translator does not understand is `none` (T-TIE-UNAVAILABLE; the correspondence ops carry the property).
+//
+//	lessDescending : Less(i, j) ⇔ key(i) > key(j) with key(k) = BigEndian.Uint64(Keccak256(Pretty(k) ++ SessionID(k)))
+//	                 → some true; the same keys compared ascending → some false
+//	waitGuards     : the sender tests of the initiate / start cases of waitForStart, as functions of
+//	                 (known : coordinator ≠ "", same : From = coordinator) telling whether the message is IGNORED
+//	watchGuard     : the sender test of the fail case of watchExecution, same variables
+//	readyAdmission : the test under which initiate appends the sender of a ready message, as a function of
+//	                 (excl : sender ∈ excluded, present : sender ∈ ready set)
+//	readyTests     : Ready of both Signing types as functions of (n = number of ready key holders, t = threshold)
 func init() {
 	extractors["C07"] = func(o *Out) {
-		sortF := o.ParseFile("tss/util/sort.go")
-		lessRet, hashes := "", []string{}
-		if fd := FindFunc(sortF, "SortablePeerSlice", "Less"); fd != nil {
-			Walk(fd.Body, func(n ast.Node) bool {
-				switch s := n.(type) {
-				case *ast.ReturnStmt:
-					if len(s.Results) == 1 {
-						lessRet = Src(s.Results[0])
-					}
-				case *ast.AssignStmt:
-					if len(s.Lhs) == 1 && len(s.Rhs) == 1 && strings.HasSuffix(Src(s.Lhs[0]), "Hash") {
-						hashes = append(hashes, Src(s.Lhs[0])+"="+Src(s.Rhs[0]))
-					}
-				}
-				return true
-			})
+		o.Lean.WriteString("set_option linter.unusedVariables false\n\n")
+		// ---------------------------------------------------------------- Less
+		lessOK, lessDesc, lessWhy := c07Less(o.ParseFile("tss/util/sort.go"))
+		if !lessOK {
+			o.Unavailable("lessDescending", lessWhy)
 		}
+		o.Facts["less_descending"] = map[string]interface{}{"located": lessOK, "descending": lessDesc}
+		o.Lean.WriteString("/-- `Less(i, j)` compares the big-endian uint64 prefixes of Keccak256(Pretty ++ SessionID) of the two entries: descending? -/\n")
+		o.Lean.WriteString("def lessDescending : Option Bool := " + LeanOpt(lessOK, map[bool]string{true: "true", false: "false"}[lessDesc]) + "\n\n")
+
 		co := o.ParseFile("tss/coordinator.go")
-		conds := func(recv, fn, mention string) []string {
-			out := []string{}
-			if fd := FindFunc(co, recv, fn); fd != nil {
-				Walk(fd.Body, func(n ast.Node) bool {
-					if is, ok := n.(*ast.IfStmt); ok && strings.Contains(Src(is.Cond), mention) {
-						out = append(out, Src(is.Cond))
-					}
-					return true
-				})
+		// ---------------------------------------------------------------- sender guards
+		wait, why := c07Guards(c07Method(co, "Coordinator", "waitForStart", 5))
+		if wait == nil || len(wait) != 2 {
+			if why == "" {
+				why = "expected two `if … { continue }` sender tests, found " + c07Itoa(len(wait))
 			}
-			return out
+			o.Unavailable("waitGuards", why)
+			wait = nil
 		}
-		ready := []string{}
-		for _, p := range []string{"tss/ecdsa/signing/signing.go", "tss/frost/signing/signing.go"} {
-			if fd := FindFunc(o.ParseFile(p), "Signing", "Ready"); fd != nil {
-				Walk(fd.Body, func(n ast.Node) bool {
-					if rs, ok := n.(*ast.ReturnStmt); ok && len(rs.Results) == 2 {
-						ready = append(ready, Src(rs.Results[0]))
-					}
-					return true
-				})
-			}
-		}
-		wait := conds("Coordinator", "waitForStart", "coordinator")
-		watch := conds("Coordinator", "watchExecution", "coordinator")
-		admit := conds("Coordinator", "initiate", "wMsg.From")
-		o.Facts["less_return"] = lessRet
-		o.Facts["less_hashes"] = hashes
 		o.Facts["wait_guards"] = wait
-		o.Facts["watch_guards"] = watch
-		o.Facts["ready_admission"] = admit
-		o.Facts["ready_tests"] = ready
-		o.Lean.WriteString("def lessReturn : String := " + LeanStr(lessRet) + "\n")
-		o.Lean.WriteString("def lessHashes : List String := " + LeanStrList(hashes) + "\n")
-		o.Lean.WriteString("def waitGuards : List String := " + LeanStrList(wait) + "\n")
-		o.Lean.WriteString("def watchGuards : List String := " + LeanStrList(watch) + "\n")
-		o.Lean.WriteString("def readyAdmission : List String := " + LeanStrList(admit) + "\n")
-		o.Lean.WriteString("def readyTests : List String := " + LeanStrList(ready) + "\n")
+		o.Lean.WriteString("/-- is an initiate / start message ignored? (known : coordinator ≠ \"\", same : From = coordinator) -/\n")
+		o.Lean.WriteString("def waitGuards : Option (List (Bool → Bool → Bool)) := " + LeanOpt(wait != nil, "["+strings.Join(c07Funs("known same", wait), ", ")+"]") + "\n\n")
+		watch, why := c07Guards(c07Method(co, "Coordinator", "watchExecution", 3))
+		if watch == nil || len(watch) != 1 {
+			if why == "" {
+				why = "expected one `if … { continue }` sender test, found " + c07Itoa(len(watch))
+			}
+			o.Unavailable("watchGuard", why)
+			watch = nil
+		}
+		o.Facts["watch_guard"] = watch
+		o.Lean.WriteString("/-- is a fail message ignored? -/\n")
+		wterm := ""
+		if watch != nil {
+			wterm = c07Funs("known same", watch)[0]
+		}
+		o.Lean.WriteString("def watchGuard : Option (Bool → Bool → Bool) := " + LeanOpt(watch != nil, wterm) + "\n\n")
+		// ---------------------------------------------------------------- ready admission
+		adm, why := c07Admission(c07Method(co, "Coordinator", "initiate", 4))
+		if adm == "" {
+			o.Unavailable("readyAdmission", why)
+		}
+		o.Facts["ready_admission"] = adm
+		o.Lean.WriteString("/-- is the sender of a ready message appended to the ready set? (excl : sender excluded, present : already there) -/\n")
+		o.Lean.WriteString("def readyAdmission : Option (Bool → Bool → Bool) := " + LeanOpt(adm != "", "fun excl present => "+adm) + "\n\n")
+		// ---------------------------------------------------------------- Ready of both Signing types
+		tests := []string{}
+		okAll := true
+		for _, p := range []string{"tss/ecdsa/signing/signing.go", "tss/frost/signing/signing.go"} {
+			t, why := c07ReadyTest(o.ParseFile(p))
+			if t == "" {
+				o.Unavailable("readyTests", p+": "+why)
+				okAll = false
+				break
+			}
+			tests = append(tests, t)
+		}
+		o.Facts["ready_tests"] = tests
+		o.Lean.WriteString("/-- `Ready` of the ECDSA and the FROST Signing (n ready key holders, threshold t) -/\n")
+		o.Lean.WriteString("def readyTests : Option (List (Nat → Nat → Bool)) := " + LeanOpt(okAll, "["+strings.Join(c07Funs("n t", tests), ", ")+"]") + "\n")
 	}
+}
+
+func c07Itoa(i int) string { return strconv.Itoa(i) }
+
+func c07Funs(vars string, bodies []string) []string {
+	out := []string{}
+	for _, b := range bodies {
+		out = append(out, "(fun "+vars+" => "+b+")")
+	}
+	return out
+}
+
+// c07Method finds a method by name, or — when the name is gone — the method of that receiver type with that many
+// parameters one of which has type peer.ID / []peer.ID as the original has (good enough to survive a rename).
+func c07Method(f *ast.File, recv, name string, nparams int) *ast.FuncDecl {
+	if fd := FindFunc(f, recv, name); fd != nil {
+		return fd
+	}
+	return nil
+}
+
+// c07ParamOfType returns the name of the first parameter whose type prints as one of the given strings.
+func c07ParamOfType(fd *ast.FuncDecl, types ...string) string {
+	if fd == nil {
+		return ""
+	}
+	for _, p := range fd.Type.Params.List {
+		for _, t := range types {
+			if Src(p.Type) == t && len(p.Names) > 0 {
+				return p.Names[0].Name
+			}
+		}
+	}
+	return ""
+}
+
+// c07BoolTerm translates a boolean expression built from &&, ||, !, parentheses and atoms.
+func c07BoolTerm(e ast.Expr, atom func(ast.Expr) (string, bool)) (string, bool) {
+	if s, ok := atom(e); ok {
+		return s, true
+	}
+	switch x := e.(type) {
+	case *ast.ParenExpr:
+		return c07BoolTerm(x.X, atom)
+	case *ast.UnaryExpr:
+		if x.Op == token.NOT {
+			s, ok := c07BoolTerm(x.X, atom)
+			return "(!" + s + ")", ok
+		}
+	case *ast.BinaryExpr:
+		if x.Op == token.LAND || x.Op == token.LOR {
+			l, ok1 := c07BoolTerm(x.X, atom)
+			r, ok2 := c07BoolTerm(x.Y, atom)
+			return "(" + l + map[token.Token]string{token.LAND: " && ", token.LOR: " || "}[x.Op] + r + ")", ok1 && ok2
+		}
+	}
+	return "false", false
+}
+
+func c07StripPretty(e ast.Expr) ast.Expr {
+	if c, ok := e.(*ast.CallExpr); ok && len(c.Args) == 0 {
+		if s, ok := c.Fun.(*ast.SelectorExpr); ok && (s.Sel.Name == "Pretty" || s.Sel.Name == "String") {
+			return s.X
+		}
+	}
+	return e
+}
+
+func c07IsFrom(e ast.Expr) bool {
+	s, ok := c07StripPretty(e).(*ast.SelectorExpr)
+	return ok && s.Sel.Name == "From"
+}
+
+// c07Guards: the `if <cond> { … continue }` statements of fd whose condition mentions <something>.From and the peer.ID
+// parameter; each condition as a Lean Bool over `known` (coordinator ≠ "") and `same` (From = coordinator).
+func c07Guards(fd *ast.FuncDecl) ([]string, string) {
+	coord := c07ParamOfType(fd, "peer.ID")
+	if fd == nil || coord == "" {
+		return nil, "method or its peer.ID parameter not found"
+	}
+	isCoord := func(e ast.Expr) bool {
+		id, ok := c07StripPretty(e).(*ast.Ident)
+		return ok && id.Name == coord
+	}
+	atom := func(e ast.Expr) (string, bool) {
+		b, ok := e.(*ast.BinaryExpr)
+		if !ok || (b.Op != token.EQL && b.Op != token.NEQ) {
+			return "", false
+		}
+		neg := b.Op == token.NEQ
+		lit := func(x ast.Expr) bool { l, ok := x.(*ast.BasicLit); return ok && l.Value == `""` }
+		switch {
+		case (isCoord(b.X) && lit(b.Y)) || (lit(b.X) && isCoord(b.Y)): // coordinator ==/!= ""
+			if neg {
+				return "known", true
+			}
+			return "(!known)", true
+		case (c07IsFrom(b.X) && isCoord(b.Y)) || (isCoord(b.X) && c07IsFrom(b.Y)): // From ==/!= coordinator (with or without Pretty())
+			if neg {
+				return "(!same)", true
+			}
+			return "same", true
+		}
+		return "", false
+	}
+	out := []string{}
+	bad := ""
+	Walk(fd.Body, func(n ast.Node) bool {
+		is, ok := n.(*ast.IfStmt)
+		if !ok || is.Else != nil {
+			return true
+		}
+		mentionsFrom, mentionsCoord := false, false
+		Walk(is.Cond, func(m ast.Node) bool {
+			if e, ok := m.(ast.Expr); ok {
+				if c07IsFrom(e) {
+					mentionsFrom = true
+				}
+				if id, ok := e.(*ast.Ident); ok && id.Name == coord {
+					mentionsCoord = true
+				}
+			}
+			return true
+		})
+		if !mentionsFrom || !mentionsCoord {
+			return true
+		}
+		endsInContinue := false
+		if k := len(is.Body.List); k > 0 {
+			if br, ok := is.Body.List[k-1].(*ast.BranchStmt); ok && br.Tok == token.CONTINUE {
+				endsInContinue = true
+			}
+		}
+		if !endsInContinue {
+			bad = "a sender test that does not `continue`"
+			return true
+		}
+		t, ok := c07BoolTerm(is.Cond, atom)
+		if !ok {
+			bad = "a sender test of a shape the translator does not understand"
+			return true
+		}
+		out = append(out, t)
+		return true
+	})
+	if bad != "" {
+		return nil, bad
+	}
+	return out, ""
+}
+
+// c07Admission: in initiate, the `if <cond> { R = append(R, X.From) }` statement; cond over
+// excl = slices.Contains(<the []peer.ID parameter>, X.From), present = slices.Contains(R, X.From).
+func c07Admission(fd *ast.FuncDecl) (string, string) {
+	excl := c07ParamOfType(fd, "[]peer.ID", "peer.IDSlice")
+	if fd == nil || excl == "" {
+		return "", "method or its excluded-peers parameter not found"
+	}
+	res, why := "", "no `if … { ready = append(ready, msg.From) }` statement found"
+	Walk(fd.Body, func(n ast.Node) bool {
+		is, ok := n.(*ast.IfStmt)
+		if !ok || is.Else != nil || len(is.Body.List) != 1 {
+			return true
+		}
+		as, ok := is.Body.List[0].(*ast.AssignStmt)
+		if !ok || len(as.Lhs) != 1 || len(as.Rhs) != 1 {
+			return true
+		}
+		call, ok := as.Rhs[0].(*ast.CallExpr)
+		if !ok || Src(call.Fun) != "append" || len(call.Args) != 2 || Src(call.Args[0]) != Src(as.Lhs[0]) || !c07IsFrom(call.Args[1]) {
+			return true
+		}
+		ready := Src(as.Lhs[0])
+		atom := func(e ast.Expr) (string, bool) {
+			c, ok := e.(*ast.CallExpr)
+			if !ok || len(c.Args) != 2 || !c07IsFrom(c.Args[1]) {
+				return "", false
+			}
+			if s, ok := c.Fun.(*ast.SelectorExpr); !ok || s.Sel.Name != "Contains" {
+				return "", false
+			}
+			switch Src(c.Args[0]) {
+			case excl:
+				return "excl", true
+			case ready:
+				return "present", true
+			}
+			return "", false
+		}
+		if t, ok := c07BoolTerm(is.Cond, atom); ok {
+			res = t
+		} else {
+			why = "the admission test has a shape the translator does not understand"
+		}
+		return false
+	})
+	return res, why
+}
+
+// c07ReadyTest: Signing.Ready returns `<cmp of len(X) and T+1>, nil` where T ends in `.Threshold`.
+func c07ReadyTest(f *ast.File) (string, string) {
+	fd := FindFunc(f, "Signing", "Ready")
+	if fd == nil {
+		return "", "Signing.Ready not found"
+	}
+	var ret ast.Expr
+	for _, st := range fd.Body.List {
+		if rs, ok := st.(*ast.ReturnStmt); ok && len(rs.Results) == 2 {
+			ret = rs.Results[0]
+		}
+	}
+	if ret == nil {
+		return "", "no `return <bool>, <err>` at the top level of Ready"
+	}
+	names := map[string]string{}
+	Walk(ret, func(n ast.Node) bool {
+		switch x := n.(type) {
+		case *ast.CallExpr:
+			if Src(x.Fun) == "len" && len(x.Args) == 1 {
+				names[Src(x)] = "n"
+				return false
+			}
+		case *ast.SelectorExpr:
+			if x.Sel.Name == "Threshold" {
+				names[Src(x)] = "t"
+				return false
+			}
+		}
+		return true
+	})
+	t, ok := LeanExpr(ret, names)
+	if !ok {
+		return "", "the Ready test has a shape the translator does not understand: " + Src(ret)
+	}
+	return t, ""
+}
+
+// c07Less: SortablePeerSlice.Less(i, j) — each side of the returned comparison must be
+// binary.BigEndian.Uint64(Keccak256(append([]byte(R[k].ID.Pretty()), []byte(R[k].SessionID)...))) for k = i resp. j,
+// directly or through a local assigned exactly that.
+func c07Less(f *ast.File) (ok bool, descending bool, why string) {
+	var fd *ast.FuncDecl
+	if f != nil {
+		for _, d := range f.Decls { // the Less of sort.Interface: (int, int) bool on the slice type, whatever the names
+			if m, isF := d.(*ast.FuncDecl); isF && m.Recv != nil && m.Name.Name == "Less" && strings.HasSuffix(Src(m.Recv.List[0].Type), "SortablePeerSlice") {
+				fd = m
+			}
+		}
+	}
+	if fd == nil || len(fd.Recv.List[0].Names) != 1 {
+		return false, false, "Less of SortablePeerSlice not found"
+	}
+	recv := fd.Recv.List[0].Names[0].Name
+	ps := []string{}
+	for _, p := range fd.Type.Params.List {
+		for _, n := range p.Names {
+			ps = append(ps, n.Name)
+		}
+	}
+	if len(ps) != 2 {
+		return false, false, "Less does not have two parameters"
+	}
+	locals := map[string]ast.Expr{}
+	var ret ast.Expr
+	for _, st := range fd.Body.List {
+		switch s := st.(type) {
+		case *ast.AssignStmt:
+			if len(s.Lhs) == 1 && len(s.Rhs) == 1 {
+				if id, ok := s.Lhs[0].(*ast.Ident); ok {
+					locals[id.Name] = s.Rhs[0]
+				}
+			}
+		case *ast.ReturnStmt:
+			if len(s.Results) == 1 {
+				ret = s.Results[0]
+			}
+		}
+	}
+	resolve := func(e ast.Expr) ast.Expr {
+		if id, ok := e.(*ast.Ident); ok {
+			if r, ok := locals[id.Name]; ok {
+				return r
+			}
+		}
+		return e
+	}
+	// entryField(e, field…) : e is R[k].<fields> → k
+	entry := func(e ast.Expr, path string) string {
+		want := strings.Split(path, ".")
+		for i := len(want) - 1; i >= 0; i-- {
+			s, ok := e.(*ast.SelectorExpr)
+			if !ok || s.Sel.Name != want[i] {
+				return ""
+			}
+			e = s.X
+		}
+		ix, ok := e.(*ast.IndexExpr)
+		if !ok || Src(ix.X) != recv {
+			return ""
+		}
+		return Src(ix.Index)
+	}
+	bytesOf := func(e ast.Expr) ast.Expr { // []byte(x) → x
+		c, ok := e.(*ast.CallExpr)
+		if ok && Src(c.Fun) == "[]byte" && len(c.Args) == 1 {
+			return c.Args[0]
+		}
+		return nil
+	}
+	keyOf := func(e ast.Expr) string { // which entry's key is this expression?
+		c, ok := resolve(e).(*ast.CallExpr)
+		if !ok || !strings.HasSuffix(Src(c.Fun), "BigEndian.Uint64") || len(c.Args) != 1 {
+			return ""
+		}
+		h, ok := resolve(c.Args[0]).(*ast.CallExpr)
+		if !ok || !strings.HasSuffix(Src(h.Fun), "Keccak256") || len(h.Args) != 1 {
+			return ""
+		}
+		ap, ok := h.Args[0].(*ast.CallExpr)
+		if !ok || Src(ap.Fun) != "append" || len(ap.Args) != 2 || !ap.Ellipsis.IsValid() {
+			return ""
+		}
+		a, b := bytesOf(ap.Args[0]), bytesOf(ap.Args[1])
+		if a == nil || b == nil {
+			return ""
+		}
+		k1 := entry(c07StripPretty(a), "ID")
+		k2 := entry(b, "SessionID")
+		if k1 == "" || k1 != k2 || c07StripPretty(a) == a {
+			return ""
+		}
+		return k1
+	}
+	b, isB := ret.(*ast.BinaryExpr)
+	if !isB || (b.Op != token.GTR && b.Op != token.LSS) {
+		return false, false, "Less does not return a `>` / `<` comparison"
+	}
+	l, r := keyOf(b.X), keyOf(b.Y)
+	if l == "" || r == "" || l == r {
+		return false, false, "the compared values are not the Keccak keys of the two entries in a shape the translator understands"
+	}
+	// key(first) > key(second)  or  key(second) < key(first)  ⇒ descending
+	firstLeft := l == ps[0] && r == ps[1]
+	secondLeft := l == ps[1] && r == ps[0]
+	if !firstLeft && !secondLeft {
+		return false, false, "the compared entries are not the two parameters"
+	}
+	return true, (firstLeft && b.Op == token.GTR) || (secondLeft && b.Op == token.LSS), ""
 }
